@@ -140,6 +140,36 @@ theorem deriveSecret_spec (mac : Bytes → Bytes → Bytes) (h : Hash) (wf : h.W
   cases hh <;> simp only [Model.deriveSecret, Spec.deriveSecret, Option.getD] <;>
     exact hkdfExpandLabel_spec mac h.digestSize secret label _ h.digestSize (by omega) h2 (by rw [wf.len]; exact hd) hdc
 
+/-- `keyingMaterialExporter` = RFC 5705 for TLS 1.0–1.2 and RFC 8446 §7.5 for TLS 1.3 -/
+theorem exporter_spec (hs : Model.Hashes) (wf : HashesWF hs) (mac256 mac384 : Bytes → Bytes → Bytes)
+    (sha384Prf : Bool) (ms cr sr ems label : Bytes) (length : Nat)
+    (hlab : ¬ (label = lblServerFinished ∨ label = lblClientFinished ∨ label = lblMasterSecret ∨ label = lblKeyExpansion))
+    (h1 : length < 65536) (h2 : 6 + label.length < 256)
+    (hL : divceil length (if sha384Prf then hs.sha384 else hs.sha256).digestSize ≤ 255)
+    (hd : (if sha384Prf then hs.sha384 else hs.sha256).digestSize < 256) :
+    (∀ v : Spec.Version, v ≠ .ssl3 →
+      Model.keyingMaterialExporter hs mac256 mac384 v.pair sha384Prf ms cr sr ems label length =
+        .ok (Spec.exporter hs mac256 mac384 false v sha384Prf ms cr sr ems label length)) ∧
+    Model.keyingMaterialExporter hs mac256 mac384 (3, 4) sha384Prf ms cr sr ems label length =
+      .ok (Spec.exporter hs mac256 mac384 true .tls12 sha384Prf ms cr sr ems label length) := by
+  constructor
+  · intro v hv
+    cases v <;> first | exact absurd rfl hv | skip
+    all_goals
+      cases sha384Prf <;>
+      simp (config := { decide := true }) [Model.keyingMaterialExporter, hlab, Model.verLt, Spec.Version.pair, Spec.exporter,
+        prf_spec hs.md5 hs.sha1 wf.md5 wf.sha1, prf12_spec hs.sha256 wf.sha256, prf12_spec hs.sha384 wf.sha384]
+  · have hwf : (if sha384Prf then hs.sha384 else hs.sha256).WF := by cases sha384Prf <;> simp [wf.sha256, wf.sha384]
+    have hds := deriveSecret_spec (if sha384Prf then mac384 else mac256) _ hwf ems label none h2 hd
+    simp only [Option.getD] at hds
+    have hel := hkdfExpandLabel_spec (if sha384Prf then mac384 else mac256)
+      (if sha384Prf then hs.sha384 else hs.sha256).digestSize
+      (Spec.deriveSecret (if sha384Prf then mac384 else mac256) (if sha384Prf then hs.sha384 else hs.sha256) ems label [])
+      lblExporter ((if sha384Prf then hs.sha384 else hs.sha256).H []) length h1 (by decide)
+      (by rw [hwf.len]; exact hd) hL
+    simp (config := { decide := true }) only [Model.keyingMaterialExporter, hlab, Model.verLt, if_false, if_true, hds, bind, Except.bind, hel,
+      Spec.exporter]
+
 /-- the HkdfLabel encoding is injective: different (length, label, context) never give the same info string -/
 theorem hkdfLabel_injective (l1 l2 : Nat) (a1 a2 c1 c2 : Bytes) (h1 : l1 < 65536) (h2 : l2 < 65536)
     (ha1 : 6 + a1.length < 256) (ha2 : 6 + a2.length < 256) (_hc1 : c1.length < 256) (_hc2 : c2.length < 256)
